@@ -330,6 +330,15 @@ for fn, q in [("c04_consume_8_8", True), ("c04_consume_1_8", True), ("c04_consum
     reg(IOB, fn, ["C04"], flavour="real", tier="quick" if q else "thorough", timeout=900, mem=16,
         what="IoBuffers consume geometry/accounting on two segments (%s)" % fn[12:], bounds="segment lengths concrete; count, consumed k and consumer failure symbolic",
         functions=IOB_FUNCS, stubs=[STUB_FMT], role=fn)
+FBB = "harness/real/filebuf__bytes.rs"
+for fn, q in [("c04_filebuf_read_slice", True), ("c04_filebuf_write_slice", True), ("c04_filebuf_read", True), ("c04_filebuf_write", False),
+              ("c04_filebuf_load_store", False), ("c04_filebuf_geometry", True), ("c04_filebuf_buf_views", True)]:
+    reg(FBB, fn, ["C04"], flavour="real", tier="quick" if q else "thorough", timeout=600, mem=12, unwindset_ioerr=False,
+        what="FileVolatileSlice/FileVolatileBuf as a plain view: %s, differentially against vm_memory::VolatileSlice over a twin array and against the plain-array meaning" % fn[12:],
+        bounds="8 bytes of adapter memory and a 4-byte caller buffer, all symbolic; addr over all usize, length 0..4 symbolic; unwind 10",
+        functions=["<FileVolatileSlice as Bytes<usize>>::{read, write, read_slice, write_slice, load, store}", "FileVolatileSlice::{from_raw_ptr, offset, len, as_ptr, as_volatile_slice, from_volatile_slice, borrow_as_buf}",
+                   "FileVolatileBuf::{new_with_data, io_slice, io_slice_mut, set_size, len, cap}", "vm_memory::VolatileSlice::{read,write,read_slice,write_slice,load,store} (the callee)"],
+        stubs=[STUB_FMT], role=fn)
 # c04_split_* and c17_dirty_split_* exist in the harness file but are NOT registered: IoBuffers::split_at
 # (VecDeque::split_off + pop/push) ran out of memory at 24 GB for every offset tried (see DESIGN.md).
 for fn, q in [("c17_dirty_write_8_8", True), ("c17_dirty_write_3_8", True), ("c17_dirty_read_8_8", True)]:
